@@ -15,5 +15,10 @@ PROPS["C18"] = {
     "bounds": {"quick": {"errors_merged": 3, "groupings": 2, "operand_kinds": 5, "message_bytes": 1},
                "thorough": {"errors_merged": 4, "groupings": 5, "operand_kinds": 4, "message_bytes": 1}},
     "assumptions": ["goa.NewErrorID returns an arbitrary 8-byte string", "fmt.Sprintf(\"%s\", s) is s"],
-    "outside": ["more than 4 merged errors", "messages longer than the bound (the code never inspects message bytes)"],
+    "outside": ["more than 4 merged errors", "messages longer than the bound (the code never inspects message bytes)",
+                "anypb marshalling of gRPC status details (identity container)"],
+    "manifest": {
+        "text": "Bounded model checking of the real pkg.MergeErrors/History/Unwrap, http.NewErrorResponse/StatusCode and grpc.EncodeError/DecodeError/NewServiceError code: for every combination of operand kinds (service error with/without cause, plain error, wrapped error, nil), every flag vector, every name choice and symbolic messages, and every parenthesisation of 3 (quick) / 4 (thorough) operands, the solver shows the merge laws, history exactly-once, cause reachability and nil-neutrality; the HTTP status and gRPC code tables are decided for all 8 flag vectors x special name, and the gRPC encode/decode round trip for symbolic name/id/message. Within these bounds the result covers all values, which the table tests cannot.",
+        "note": "Trusted: gosym executor and z3 4.8.12; stubs: goa.NewErrorID = arbitrary 8 bytes, grpc status details as identity container, fmt %s/%v as concatenation. Counterexamples are only reported after native replay (go test -overlay); sampled witnesses of passing paths are re-run natively on every run.",
+    },
 }
